@@ -1,10 +1,10 @@
 SPECIFICATION GSpec
 CONSTANTS
-  Procs = {"c1", "c2"}
-  Hosts = {"a", "b", "c"}
-  Size = 2
-  MaxCalls = 1
-  MaxExpire = 2
+  Procs = {"c1"}
+  Hosts = {"a", "b"}
+  Size = 1
+  MaxCalls = 3
+  MaxExpire = 1
   Kinds = {"lookup", "dial"}
   ZeroDuration = FALSE
   Faults = TRUE
